@@ -152,20 +152,35 @@ def _build_chain(case):
     return MarkovChain(P)
 
 
+DRESSES = ("int", "int64", "int32", "intp", "uint8")
+
+
+def dress_scalar(v, dress):
+    """the same integer as a Python int or as a NumPy integer scalar (as taken from an array / argmax)"""
+    v = int(v)
+    if dress == "uint8" and not (0 <= v < 256):
+        dress = "int64"
+    return {"int": int, "int64": np.int64, "int32": np.int32, "intp": np.intp, "uint8": np.uint8}[dress](v)
+
+
 def make_init(case):
     init, form = case["init"], case.get("init_form", "int")
+    dress = case.get("dress", "int")
     if init is None:
         return None
     if form == "int":
-        return int(init)
+        return dress_scalar(init, dress)
     if form == "npint":
-        return np.int64(init)
+        return dress_scalar(init, dress if dress != "int" else "int64")
     if form == "list":
-        return [int(i) for i in init]
+        return [dress_scalar(i, dress) for i in init]
     if form == "tuple":
-        return tuple(int(i) for i in init)
+        return tuple(dress_scalar(i, dress) for i in init)
     if form == "array":
-        return np.array(init, dtype=np.int64)
+        dt = {"int": np.int64, "int64": np.int64, "int32": np.int32, "intp": np.intp, "uint8": np.uint8}[dress]
+        if dress == "uint8" and any(not (0 <= int(i) < 256) for i in init):
+            dt = np.int64
+        return np.array(init, dtype=dt)
     if form == "dist":
         return unhx(init)
     raise AssertionError(form)
@@ -174,7 +189,8 @@ def make_init(case):
 def run_case(case):
     """-> ["ok", dim2, rows, consumed_uniforms] | ["ValueError", msg] | ["IndexError", msg] | ["Other", repr]"""
     try:
-        rs = ScriptedRS(unhx(case["stream"]), case.get("ints", ()))
+        # padded: a call that draws more uniforms than documented must show up as a wrong count / wrong path, not as a crash
+        rs = ScriptedRS(unhx(case["stream"]) + [0.5] * 16, list(case.get("ints", ())) + [0] * 4)
         if case["kind"] == "mcsp":
             from quantecon.markov.core import mc_sample_path
             if case.get("csr") is not None or case["sparse"]:
@@ -194,8 +210,6 @@ def run_case(case):
         return ["ValueError", str(e)[:100]]
     except IndexError as e:
         return ["IndexError", str(e)[:100]]
-    except AssertionError:
-        raise
     except Exception as e:
         return ["Other", repr(e)[:200]]
 
@@ -412,7 +426,8 @@ def oracle_paths(ctx, case, res, rows, kind_override=None):
     ts = case["ts"]
     init, nr = case["init"], case["num_reps"]
     inp = {"function": case["kind"], "sparse": bool(case["sparse"] or case.get("csr")), "P": case.get("P"), "csr": case.get("csr"),
-           "ts": ts, "init": init, "init_form": case.get("init_form"), "num_reps": nr, "stream": case["stream"], "ints": case.get("ints")}
+           "ts": ts, "init": init, "init_form": case.get("init_form"), "dress": case.get("dress", "int"), "num_reps": nr, "stream": case["stream"],
+           "ints": case.get("ints")}
     if kind_override:
         inp["negative_init"] = True
 
@@ -548,7 +563,7 @@ def make_cases(ctx, thorough):
             for _ in range(ncalls):
                 kind = rng.choice(["sim_idx", "sim_idx", "sim_idx", "sim", "mcsp"])
                 ts = rng.choice([1, 2, 3, 3, 5, 8, 13, 30 if thorough else 20])
-                c = dict(base, kind=kind, ts=ts, num_reps=None, ints=[], init_form="int")
+                c = dict(base, kind=kind, ts=ts, num_reps=None, ints=[], init_form="int", dress=rng.choice(DRESSES))
                 if kind == "mcsp":
                     if rng.random() < 0.5:
                         c["init"] = rng.randrange(n)
@@ -962,6 +977,8 @@ def run(ctx):
         ctx.count("sim:n=%d" % n if n < 8 else "sim:n>=8")
         form = "none" if c["init"] is None else c["init_form"]
         ctx.count("sim:init=%s%s" % (form, "" if c["num_reps"] is None else "+num_reps"))
+        if c["init"] is not None and c.get("init_form") != "dist":
+            ctx.count("sim:%s:integer-dress=%s" % (c["kind"], c.get("dress", "int")))
         neg = c["init"] is not None and c["init_form"] != "dist" and any(i < 0 for i in ([c["init"]] if isinstance(c["init"], int) else c["init"]))
         if neg:
             ctx.count("sim:negative_init(%s)" % ("sparse" if c["sparse"] or c["csr"] else "dense"))
@@ -969,12 +986,12 @@ def run(ctx):
         ctx.count("sim:u=0", sum(1 for u in st if u == 0.0))
         ctx.count("sim:u=1-2^-53", sum(1 for u in st if u == ONE_M))
         ctx.count("sim:uniforms", len(st))
-        ctx.case(("sim", c["kind"], c["P"], c["csr"], c["sparse"], c["ts"], c["init"], c["num_reps"], c["stream"], c["ints"]),
+        ctx.case(("sim", c["kind"], c["P"], c["csr"], c["sparse"], c["ts"], c["init"], c.get("dress"), c["num_reps"], c["stream"], c["ints"]),
                  nontrivial=(res[0] == "ok" and n >= 2 and c["ts"] >= 2 and len(res[2]) >= 1),
                  sample={"call": c["kind"], "n": n, "variant": c["variant"], "ts": c["ts"], "init": c["init"], "num_reps": c["num_reps"],
                          "stream_head": st[:3], "impl": res[:3] if res[0] != "ok" else res[2][:2]})
         inp = {"function": c["kind"], "P": c["P"], "csr": c["csr"], "sparse": bool(c["sparse"] or c["csr"]), "ts": c["ts"], "init": c["init"],
-               "init_form": c["init_form"], "num_reps": c["num_reps"], "stream": c["stream"], "ints": c["ints"]}
+               "init_form": c["init_form"], "dress": c.get("dress", "int"), "num_reps": c["num_reps"], "stream": c["stream"], "ints": c["ints"]}
         override = "sparse_negative_init" if bc_only else None
         if bc_only:
             inp["negative_init"] = True
@@ -1062,7 +1079,7 @@ def replay(data):
     if inp.get("function") in ("sim_idx", "sim", "mcsp", "simulate_indices") and "stream" in inp:
         c = dict(P=inp.get("P"), csr=inp.get("csr"), sparse=inp.get("sparse", False), kind=inp["function"] if inp["function"] != "simulate_indices" else "sim_idx",
                  ts=inp["ts"], init=inp["init"], init_form=inp.get("init_form") or ("int" if isinstance(inp["init"], int) else "list"),
-                 num_reps=inp.get("num_reps"), ints=inp.get("ints") or [], stream=inp["stream"])
+                 num_reps=inp.get("num_reps"), ints=inp.get("ints") or [], stream=inp["stream"], dress=inp.get("dress", "int"))
         if inp.get("negative_init") and c["sparse"]:
             print("(sparse kernel with negative init: run under NUMBA_BOUNDSCHECK=1 to avoid a segfault)")
             if os.environ.get("NUMBA_BOUNDSCHECK") != "1":
